@@ -401,6 +401,30 @@ def stale_entry_cases(rng, thorough):
                     lines += ["reg A %d %d %d %d - %s" % (tok, code, ln2, s2, REQ_OTHER), "do %d 20000" % tok]
                     lines += ["net deliver"] * (2 * (ln2 // u + 3) + 4)
                     out.append(Case(lines + ["end"], {"token-reuse", "dir-up", "time"}, True))
+    # a message that needs block-wise sending is started while another one is still held under the same token (the request
+    # is replayed and the resource has changed meanwhile / a second one-way write): the second one must be refused, never
+    # spliced with the first (no ETag, so the receiver could not notice)
+    for (sa, ma, sb, mb) in cfgs:
+        u = size(min(sa, sb))
+        ub = buflen(sb, mb)
+        for k in (2, 3, 4, 5):
+            tok = rng.choice([7, tokn("0100"), rng.randrange(1, 1 << 40)])
+            ln = 3 * max(ub, u) + 7
+            lines = [cfg_line(sa, ma, sb, mb)] + xfer_lines(tok, GET, 0, 0, CONTENT, ln, rng.randrange(100), tmo=20000)
+            lines += ["net deliver"] * k
+            lines += ["reg B %d %d %d %d - %s" % (tok, CONTENT, ln + rng.choice([0, 3]), 100 + rng.randrange(100), RESP_OTHER), "net replay 0"]
+            lines += ["net deliver"] * (2 * (ln // u + 4) + 6)
+            out.append(Case(lines + ["end"], {"token-reuse-sender", "resend-while-held", "dir-down", "replay"}, True))
+        ua = buflen(sa, ma)
+        for k in (1, 2, 3):
+            tok = rng.choice([7, rng.randrange(1, 1 << 40)])
+            ln = 3 * max(ua, u) + 5
+            lines = [cfg_line(sa, ma, sb, mb), "reg A %d %d %d %d - %s" % (tok, POST, ln, rng.randrange(100), REQ_OTHER),
+                     "reg B %d %d 0 0 - -" % (tok, CHANGED), "write A %d" % tok]
+            lines += ["net deliver"] * k
+            lines += ["reg A %d %d %d %d - %s" % (tok, POST, ln + rng.choice([0, 2]), 100 + rng.randrange(100), REQ_OTHER), "write A %d" % tok]
+            lines += ["net deliver"] * (2 * (ln // u + 4) + 6)
+            out.append(Case(lines + ["end"], {"token-reuse-sender", "resend-while-held", "style-write", "dir-up"}, True))
     return out
 
 
@@ -587,7 +611,7 @@ def run_lines(ctx, art, cases, tag="x"):
 def explore(ctx, art):
     gen = gen_cases(ctx, art.get("driver"))
     # (histories that re-use a token for another body *after* abandoning a transfer do so on purpose)
-    sequential = {"stale-entry", "token-reuse"}
+    sequential = {"stale-entry", "token-reuse", "token-reuse-sender"}
     bad_gen = [c for c in gen if not (c.kinds & sequential) and not etag_discipline_ok(c.lines)]
     if bad_gen:
         # must not happen: such a history is outside the property's precondition and is not run
@@ -675,8 +699,60 @@ def explore(ctx, art):
                        "distinct by the exact line list.")
     for c in cases[:1] + [c for c in cases if "random" in c.kinds][:2]:
         ctx.sample({"history": c.lines[:14], "kinds": sorted(c.kinds)})
+    guard_level(ctx, art)
     if ctx.tier == "thorough":
         conn_level(ctx, art)
+        with common.Lock():
+            rexe = common.build_test(ctx, "c04", race=True)
+        if rexe:
+            guard_level(ctx, art, exe=rexe, realtime=True, tag="guardrace")
+
+
+def guard_level(ctx, art, exe=None, realtime=False, tag="guard"):
+    """several goroutines on one token while the handler reads the delivered body slowly (harness/c04/guard_test.go)"""
+    import subprocess
+    exe = exe or art["test"]
+    outp = os.path.join(ctx.work, tag + ".out")
+    if os.path.exists(outp):
+        os.remove(outp)
+    env = dict(os.environ, VERIF_OUT=outp, VERIF_SEED=str(ctx.seed), VERIF_TIER=ctx.tier)
+    if realtime:
+        env["VERIF_REALTIME"] = "1"
+    env.pop("VERIF_SCENARIO", None)
+    try:
+        p = subprocess.run([exe, "-test.run", "^TestC04Guard$", "-test.timeout", "600s"], cwd=ctx.work, env=env,
+                           stdout=subprocess.PIPE, stderr=subprocess.STDOUT, text=True, timeout=700)
+    except subprocess.TimeoutExpired:
+        ctx.broken.append(("correspondence", "TestC04Guard timed out (%s)" % tag, ""))
+        return
+    out = open(outp).read().splitlines() if os.path.exists(outp) else []
+    race = "WARNING: DATA RACE" in p.stdout
+    if race:
+        # the detector's report names the two accesses; the scenario that was running is the last line written
+        last = out[-1] if out else "guard ?"
+        ctx.violations.append(common.Violation(
+            "exact", "C04:guard: data race on a transfer's entry", "race detector: two goroutines touch one token's reassembly state unsynchronised (%s)" % last,
+            {"input": ["go test -race -run TestC04Guard ./c04 (harness/c04/guard_test.go)", last], "race_report": p.stdout[-3000:]}))
+    if (p.returncode != 0 and not race) or not out:
+        ctx.broken.append(("correspondence", "TestC04Guard failed rc=%d (%s)" % (p.returncode, tag), p.stdout[-2000:]))
+        return
+    n = 0
+    nbad = 0
+    for l in out:
+        f = l.split()
+        n += 1
+        res = f[-1].split("=", 1)[1]
+        ctx.count("%s-%s-%s" % (tag, f[1], res.split("-")[0]))
+        if res.startswith("violates"):
+            nbad += 1
+            if nbad <= 2:
+                scen = " ".join(f[1:-1])
+                ctx.violations.append(common.Violation(
+                    "exact", "C04:guard: " + re.sub(r"\d+", "N", res)[:80],
+                    "concurrent handling of one token (%s%s): the handler read %s" % (scen, ", real time" if realtime else "", res),
+                    {"input": ["go test -run TestC04Guard (harness/c04/guard_test.go)"], "scenario": scen, "realtime": realtime, "seed": ctx.seed,
+                     "observed": l, "expected": "the handler reads exactly one of the supplied bodies, complete"}))
+    ctx.cov[tag + "_scenarios"] = n
 
 
 def conn_level(ctx, art):
@@ -739,6 +815,20 @@ def replay(ctx, rep):
     art = common.standard_prepare(ctx, MODULES, hx=False, test=True, generated=GENERATED)
     keep_or_restore_driver(ctx, art)
     lines = rep.get("input") or []
+    if rep.get("scenario"):
+        import subprocess
+        outp = os.path.join(ctx.work, "guard_replay.out")
+        env = dict(os.environ, VERIF_OUT=outp, VERIF_SEED=str(rep.get("seed", ctx.seed)), VERIF_SCENARIO=rep["scenario"], VERIF_TIER="thorough")
+        if rep.get("realtime"):
+            env["VERIF_REALTIME"] = "1"
+        p = subprocess.run([art["test"], "-test.run", "^TestC04Guard$"], cwd=ctx.work, env=env, stdout=subprocess.PIPE,
+                           stderr=subprocess.STDOUT, text=True, timeout=300)
+        out = open(outp).read().splitlines() if os.path.exists(outp) else []
+        print("\n".join(out) or p.stdout[-1500:])
+        bad = any("violates" in l for l in out) or p.returncode != 0
+        if bad:
+            print("VIOLATION property=C04 replay=(replayed) still reproduces")
+        return 1 if bad else 0
     if not lines or not lines[0].startswith("cfg"):
         print("replay:", rep.get("what") or rep.get("no_longer_checks"))
         return 1
